@@ -87,8 +87,9 @@ def prepare_process():
     except Exception:
         pass
     sys.dont_write_bytecode = True
-    import warnings
+    import warnings, logging
     warnings.simplefilter('ignore')
+    logging.disable(logging.CRITICAL)
 
 
 def _shard_seed(seed, part, idx):
